@@ -76,8 +76,9 @@ func logorc1(s *slip.Scope, a1, a2 slip.Object, depth int) (result slip.Object) 
 
 func bigLogorc1(b1, b2 *big.Int) slip.Object {
 	var bi big.Int
-	c1 := complement((*slip.Bignum)(b1)).(*slip.Bignum)
-	bi.Or((*big.Int)(c1), b2)
+	var c1 big.Int
+	c1.Not(b1)
+	bi.Or(&c1, b2)
 
-	return (*slip.Bignum)(&bi)
+	return slip.IntegerFromBig(&bi)
 }
